@@ -560,6 +560,39 @@ def undo_renames(modules, known):
     return done
 
 
+def undo_param_renames(modules, known_params):
+    """A parameter that got another name at the same position (and is not passed by keyword
+    anywhere in the repository) is renamed back, like a local.  known_params: {qualname: [names]}"""
+    table = _func_table(modules)
+    kw_used = set()
+    for tree in modules.values():
+        for n in ast.walk(tree):
+            if isinstance(n, ast.Call):
+                kw_used.update(k.arg for k in n.keywords if k.arg)
+    done = []
+    for q, (fn, modname, cls) in table.items():
+        ref = known_params.get(q)
+        if ref is None:
+            continue
+        a = fn.args
+        cur = [x.arg for x in a.posonlyargs + a.args]
+        if len(cur) != len(ref) or cur == ref or a.vararg or a.kwarg:
+            continue
+        m = {c: r for c, r in zip(cur, ref) if c != r}
+        if any(c in kw_used or r in kw_used for c, r in m.items()):
+            continue
+        existing = {n.id for n in ast.walk(fn) if isinstance(n, ast.Name)} | set(cur)
+        if any(r in existing for r in m.values()):
+            continue
+        for n in ast.walk(fn):
+            if isinstance(n, ast.Name) and n.id in m:
+                n.id = m[n.id]
+            elif isinstance(n, ast.arg) and n.arg in m:
+                n.arg = m[n.arg]
+        done.append((q, m))
+    return done
+
+
 def fold_new_constants(modules, known_constants):
     """A module-level name bound once to a literal, that the reference module does not have,
     names a repeated literal: put the literal back where the name is read.
